@@ -116,9 +116,17 @@ enum HOp {
 }
 
 fn hmat_real(f: &Fill, ni: usize, nt: usize, ops: &[HOp]) -> Result<(Vec<u8>, Vec<u8>), String> {
+    hmat_real_obs(f, ni, nt, ops, false)
+}
+/// `observe`: serialise the structure after construction and after every operation (the history principle: an observation
+/// between two assignments must not change what the later one does - a cache filled by serialising is state)
+fn hmat_real_obs(f: &Fill, ni: usize, nt: usize, ops: &[HOp], observe: bool) -> Result<(Vec<u8>, Vec<u8>), String> {
     catch(|| {
         let f = &f.with(crate::fill::SZ, ni as u64).with(crate::fill::SX, nt as u64);
         let mut s = real_sll_new(f, sll_shape(0, 0, 0));
+        if observe {
+            let _ = ser(&s);
+        }
         for o in ops {
             match o {
                 HOp::Cell(i, j, v) => s.set_entry_value(*i as usize, *j as usize, *v),
@@ -126,6 +134,9 @@ fn hmat_real(f: &Fill, ni: usize, nt: usize, ops: &[HOp]) -> Result<(Vec<u8>, Ve
                 HOp::Tgt(j, v) => s.set_target_value(*j as usize, *v),
                 HOp::NonSeq => s.non_sequential_transfers(),
                 HOp::MinXfer => s.minimum_transfer_size_required(),
+            }
+            if observe {
+                let _ = ser(&s);
             }
         }
         let img = ser(&s);
@@ -230,7 +241,19 @@ fn hmat_closure(ctx: &'static Ctx, ni: usize, nt: usize, acts: Vec<HOp>, label: 
             match hmat_real(&f, ni, nt, &ops) {
                 Ok((img, table)) => {
                     ctx.distinct(crate::util::fnv(&img));
-                    let ok = judge(&ops, &img, &table);
+                    let mut ok = judge(&ops, &img, &table);
+                    // the same history with the structure serialised after every step
+                    match hmat_real_obs(&f, ni, nt, &ops, true) {
+                        Ok((img2, _)) if img2 == img => {}
+                        other => {
+                            ok = ctx.violation_sized(
+                                "hmat:observed",
+                                ops.len() as u64,
+                                || format!("HMAT locality {}x{} after {:?}: serialising the structure between the operations changes the result: {}", ni, nt, ops, match &other { Ok((i2, _)) => format!("{} | {}", hex(i2), hex(&img)), Err(m) => format!("panicked: {}", m) }),
+                                || json!({"family":"hmat-sll","initiators":ni,"targets":nt,"observed":true,"ops":format!("{:?}", ops)}),
+                            ) && ok;
+                        }
+                    }
                     if ni != nt {
                         ctx.witness("hmat_non_square_shape");
                     }
@@ -392,6 +415,12 @@ pub fn run(ctx: &'static Ctx) {
                 for ops in progs {
                     n.fetch_add(1, std::sync::atomic::Ordering::Relaxed);
                     let want = hmat_model(&f, ni, nt, &ops);
+                    if v % 257 == 0 || v < 300 {
+                        let observed = hmat_real_obs(&f, ni, nt, &ops, true).map(|x| x.0).unwrap_or_default();
+                        if observed != want {
+                            ctx.violation_sized("hmat:observed", v as u64, || format!("HMAT locality {}x{} after {:?} with the structure serialised after every step: differs from the last-writer reference (or panicked)", ni, nt, ops), || json!({"family":"hmat-sll","initiators":ni,"targets":nt,"observed":true,"ops":format!("{:?}", ops)}));
+                        }
+                    }
                     match hmat_real(&f, ni, nt, &ops) {
                         Ok((img, table)) => {
                             if img != want || sum8(&table) != 0 {
